@@ -62,13 +62,15 @@ EXPRESSIBLE = {int(t) for t in (BT.ANY, BT.SINGLE, BT.DOUBLE, BT.TRIPLE, BT.AROM
 MOL_MAP = {int(t): int(BT.ANY) for t in BT if int(t) not in EXPRESSIBLE}      # documented default for inexpressible types
 
 
-def mol_cycle(a, version):
+def mol_cycle(a, version, may_refuse=True):
     f = mol.MOLFile()
     try:
         with warnings.catch_warnings():
             warnings.simplefilter("ignore")
             f.set_structure(a, version=version)
     except (struc.BadStructureError, ValueError) as e:
+        if not may_refuse:
+            return f"a molecule that fits the format was refused: {type(e).__name__}: {e}"
         return None     # refused
     s = io.StringIO()
     f.write(s)
@@ -93,7 +95,18 @@ for el in ELEMS:
             for version in ("V2000", "V3000", None):
                 a = molecule(el, ch, bonds)
                 R.check("MOL file round trip", f"mol {version}", {"elements": el, "charges": ch, "bonds": [(i, j, int(t)) for i, j, t in bonds], "version": version},
-                        lambda a=a, version=version: mol_cycle(a, version))
+                        lambda a=a, version=version: mol_cycle(a, version, may_refuse=False))
+# every formal charge of the stated range, every bond type of the library
+for q in range(-15, 16):
+    for version in ("V2000", "V3000", None):
+        a = molecule(["FE", "O", "C"], [q, -q, 0], [(0, 1, BT.SINGLE)])
+        R.check("MOL file round trip", f"mol {version}", {"elements": ["FE", "O", "C"], "charges": [q, -q, 0], "version": version},
+                lambda a=a, version=version: mol_cycle(a, version, may_refuse=False))
+for t in BT:
+    for version in ("V2000", "V3000"):
+        a = molecule(["C", "C", "N"], [0, 0, 0], [(0, 1, t), (1, 2, BT.SINGLE)])
+        R.check("MOL file round trip", f"mol {version}", {"bond type": t.name, "version": version},
+                lambda a=a, version=version: mol_cycle(a, version, may_refuse=False))
 for v in [0.0, 0.00004, 9999.9999, -999.9999, 99999.9999, -9999.9999, 99999.99996, -9999.99996, 123456.7, -99999.9]:
     a = molecule(["C", "O"], [0, 0], [(0, 1, BT.SINGLE)], coords=[[0, 0, 0], [v, 1.0, -1.0]])
     for version in ("V2000", "V3000"):
@@ -276,6 +289,35 @@ def header_contract(fields):
         got = getattr(g.header, k)
         if got != v:
             return f"header field {k}: read {got!r}, wrote {v!r}"
+    # the order of the two assignments does not matter, nor does replacing the header of a file that was read:
+    # the molecule and the header are both there afterwards
+    a2 = molecule(["C", "O", "N"], [0, -1, 1], [(0, 1, BT.SINGLE), (1, 2, BT.DOUBLE)])
+    for version in ("V2000", "V3000"):
+        for how in ("structure, then header", "read, then header", "header twice"):
+            f2 = mol.MOLFile()
+            if how == "header twice":
+                f2.header = mol.Header(mol_name="first")
+            f2.set_structure(a2, version=version)
+            if how == "read, then header":
+                s2 = io.StringIO()
+                f2.write(s2)
+                f2 = mol.MOLFile.read(io.StringIO(s2.getvalue()))
+            f2.header = h
+            s2 = io.StringIO()
+            f2.write(s2)
+            try:
+                g2 = mol.MOLFile.read(io.StringIO(s2.getvalue()))
+                b2 = g2.get_structure()
+            except Exception as e:
+                return f"{how} ({version}): the written file cannot be read: {type(e).__name__}: {e}"
+            d = same(a2, b2)
+            if d:
+                return f"{how} ({version}): {d}"
+            for k, v in fields.items():
+                if getattr(g2.header, k) != v:
+                    return f"{how} ({version}): header field {k}: read {getattr(g2.header, k)!r}, wrote {v!r}"
+            if len(f2.lines) != len(g2.lines):
+                return f"{how} ({version}): {len(f2.lines)} lines in the file object, {len(g2.lines)} after re-reading"
     rec = mol.SDRecord(header=h)
     rec.set_structure(a)
     r2 = mol.SDRecord.deserialize(rec.serialize())
@@ -349,6 +391,26 @@ def rdkit_cycle(el, ch, bonds, models):
     return same(a, b, tol=1e-3)
 
 
+def rdkit_dative(flag):
+    """coordination bonds: a DATIVE bond in RDKit when asked for (and back as COORDINATION), a single bond otherwise"""
+    a = molecule(["N", "FE", "O"], [0, 0, 0], [(0, 1, BT.COORDINATION), (1, 2, BT.SINGLE)])
+    with warnings.catch_warnings():
+        warnings.simplefilter("ignore")
+        m = rd.to_mol(a, use_dative_bonds=flag)
+        b = rd.from_mol(m, add_hydrogen=False)
+    kinds = sorted(str(x.GetBondType()) for x in m.GetBonds())
+    want = ["DATIVE", "SINGLE"] if flag else ["SINGLE", "SINGLE"]
+    if kinds != want:
+        return f"to_mol(use_dative_bonds={flag}) has bonds {kinds}, expected {want}"
+    exp = {(0, 1): int(BT.COORDINATION if flag else BT.SINGLE), (1, 2): int(BT.SINGLE)}
+    got = {(int(i), int(j)): int(t) for i, j, t in b.bonds.as_array()}
+    if got != exp:
+        return f"from_mol(to_mol(use_dative_bonds={flag})) has bonds {got}, expected {exp}"
+    return None
+
+
+for flag in (False, True):
+    R.check("RDKit bridge round trip (models <-> conformers)", "rdkit coordination bonds", {"use_dative_bonds": flag}, lambda flag=flag: rdkit_dative(flag))
 for el in ELEMS:
     n = len(el)
     for ch in CHARGES[n][:2]:
